@@ -113,7 +113,7 @@ def run_case(case, stats: Counter):
         stats["unequal_lengths"] += 1
     if not any(lens):
         stats["empty_inputs"] += 1
-    if tool == "merge" and len(lens) > 1 and len(set(k for s in spec["srcs"] for k in s)) < sum(lens):
+    if tool == "merge" and len(lens) > 1 and len(set(repr(k) for s in spec["srcs"] for k in s)) < sum(lens):
         stats["merge_ties_across_iterables"] += 1
     stats["items_compared"] += len(exp_out)
     viols = []
